@@ -351,3 +351,38 @@ func (n *TimeNode) Holds(mode int, dest any) bool {
 	}
 	return v.Or(ok, caught)
 }
+
+// ---- focus nodes of kinds other than Int (template T8): what the relational Catch check needs
+
+type catchNode interface {
+	Node
+	setCatch(on bool)
+	holdsCatch(dest any) bool // dest holds the node's catch value
+}
+
+func (n *StrNode) setCatch(on bool)   { n.HasCatch = on }
+func (n *BoolNode) setCatch(on bool)  { n.HasCatch = on }
+func (n *FloatNode) setCatch(on bool) { n.HasCatch = on }
+func (n *TimeNode) setCatch(on bool)  { n.HasCatch = on }
+
+func (n *StrNode) holdsCatch(dest any) bool   { return *dest.(*string) == n.Catch }
+func (n *BoolNode) holdsCatch(dest any) bool  { return *dest.(*bool) == n.Catch }
+func (n *FloatNode) holdsCatch(dest any) bool { return v.SameBits(*dest.(*float64), n.Catch) }
+func (n *TimeNode) holdsCatch(dest any) bool  { return dest.(*time.Time).Equal(n.Catch) }
+
+// sameLeaf: two destinations of the same leaf kind hold the same value
+func sameLeaf(a, b any) bool {
+	switch x := a.(type) {
+	case *string:
+		return *x == *b.(*string)
+	case *bool:
+		return *x == *b.(*bool)
+	case *float64:
+		return v.SameBits(*x, *b.(*float64))
+	case *time.Time:
+		return x.Equal(*b.(*time.Time))
+	case *int:
+		return *x == *b.(*int)
+	}
+	return false
+}
